@@ -518,7 +518,7 @@ fn explore(ctx: &mut Ctx, c11: bool, miri: bool) {
     }
     ctx.exhaustive_part("N in 0..=6 x {u32,String,Tracked} value checks of map!/map_!/from_fn!/from_fn_! (all closure forms); map_!/from_fn_! with the closure panicking at every element");
     // all op sequences up to a depth
-    let depth_c = if miri { 3 } else { ctx.by_tier(5, 6) };
+    let depth_c = if miri { 2 } else { ctx.by_tier(5, 6) };
     let depth_b = if miri { 3 } else { ctx.by_tier(6, 7) };
     let (c_ops, b_ops) = (cops(), bops());
     for n in 0..=(if miri { 2 } else { 4 }) {
